@@ -43,6 +43,7 @@ type intrinsicFn func(in *Interp, fr *frame, fn *ssa.Function, args []value) val
 
 // Interp is one symbolic interpreter (one worker).
 type Interp struct {
+	noFresh bool // modelInputs: skip the fresh-process confirmation of a sat answer
 	Prog    *ssa.Program
 	globals map[*ssa.Global]*value
 	inited  map[*ssa.Package]bool
